@@ -332,7 +332,7 @@ var noopTable = map[string]noopSpec{
 	"MONITOR": {Op: "MONITOR"}, "MWAIT": {Op: "MWAIT"}, "RDTSCP": {Op: "RDTSCP"}, "XGETBV": {Op: "XGETBV"}, "XSETBV": {Op: "XSETBV"},
 	"VMCALL": {Op: "VMCALL"}, "VMLAUNCH": {Op: "VMLAUNCH"}, "VMRESUME": {Op: "VMRESUME"}, "VMXOFF": {Op: "VMXOFF"},
 	"GETSEC": {Op: "GETSEC"},
-	"MOVSB": {Op: "MOVS", Size: 8, Sized: true}, "MOVSW": {Op: "MOVS", Size: 16, Sized: true}, "MOVSD": {Op: "MOVS", Size: 32, Sized: true},
+	"MOVSB":  {Op: "MOVS", Size: 8, Sized: true}, "MOVSW": {Op: "MOVS", Size: 16, Sized: true}, "MOVSD": {Op: "MOVS", Size: 32, Sized: true},
 	"CMPSB": {Op: "CMPS", Size: 8, Sized: true}, "CMPSW": {Op: "CMPS", Size: 16, Sized: true}, "CMPSD": {Op: "CMPS", Size: 32, Sized: true},
 	"STOSB": {Op: "STOS", Size: 8, Sized: true}, "STOSW": {Op: "STOS", Size: 16, Sized: true}, "STOSD": {Op: "STOS", Size: 32, Sized: true},
 	"LODSB": {Op: "LODS", Size: 8, Sized: true}, "LODSW": {Op: "LODS", Size: 16, Sized: true}, "LODSD": {Op: "LODS", Size: 32, Sized: true},
@@ -361,7 +361,9 @@ type Mismatch struct {
 	Detail string
 }
 
-func mm(kind, f string, a ...any) *Mismatch { return &Mismatch{Kind: kind, Detail: fmt.Sprintf(f, a...)} }
+func mm(kind, f string, a ...any) *Mismatch {
+	return &Mismatch{Kind: kind, Detail: fmt.Sprintf(f, a...)}
+}
 
 // immWidthFor: number of low bits of an immediate operand that carry meaning.
 func immWidthFor(op string, idx int, opsize int) int {
